@@ -171,6 +171,23 @@ func (c *Conn) deferCloseToReadTask() {
 	atomic.StoreInt32(&c.readShutdown, 1)
 }
 
+// takeOnConnected returns the pending dial callback, if any, and clears it, so
+// that the poller (connect completed) and a close (timeout, user Close, error)
+// cannot both report the outcome. Must not be called with c.mux held.
+//
+//go:norace
+func (c *Conn) takeOnConnected() func(c *Conn, err error) {
+	var f func(c *Conn, err error)
+	c.mux.Lock()
+	if !c.closed {
+		// once closed, reporting is up to the closing side.
+		f = c.onConnected
+		c.onConnected = nil
+	}
+	c.mux.Unlock()
+	return f
+}
+
 // AsyncReadInPoller is used for reading data async.
 //
 //go:norace
@@ -1049,6 +1066,18 @@ func (c *Conn) closeWithError(err error) error {
 //go:norace
 func (c *Conn) closeWithErrorWithoutLock(err error) error {
 	c.closeErr = err
+
+	// a dial that is closed before it completed (timeout, Close, error)
+	// still owes its callback: report the failure. c.closed was set under
+	// the mutex before we got here, so takeOnConnected leaves it to us.
+	if f := c.onConnected; f != nil {
+		c.onConnected = nil
+		dialErr := err
+		if dialErr == nil {
+			dialErr = net.ErrClosed
+		}
+		f(c, dialErr)
+	}
 
 	if c.writeList != nil {
 		for _, t := range c.writeList {
